@@ -100,6 +100,10 @@ MARK = "@@C26-RESULT@@"
 DRIVER = os.path.join(os.path.dirname(os.path.abspath(__file__)), "_c26_driver.py")
 TIMEOUT = 120
 MOD_RE = re.compile(r"^dask_array(\.[A-Za-z_][A-Za-z0-9_]*)*$")
+# dask settings a case may run under: with query planning on, importing dask.array (which xarray's built-in
+# manager does) takes over dask-core's shared collection-dispatch slot, and dask_array re-registers itself
+# there on the next dispatch - a code path that must not opt anybody in
+ENVS = {"DASK_ARRAY__QUERY_PLANNING": "True"}
 
 
 def repo_dir():
@@ -125,6 +129,7 @@ def run_driver(job):
             "NUMEXPR_NUM_THREADS": "1",
         }
     )
+    env.update(job.get("env") or {})  # dask configuration of the fresh interpreter (see ENVS)
     try:
         p = subprocess.run(
             [sys.executable, "-P", DRIVER],
@@ -211,8 +216,10 @@ def validate(case):
     assert isinstance(order, list) and order and all(isinstance(m, str) for m in order)
     assert order.count("xarray") == 1 and len(set(order)) == len(order) and len(order) <= 200
     for m in order:
-        if m != "xarray":
+        if m not in ("xarray", "dask.array"):
             assert MOD_RE.match(m) and not (m == "dask_array.tests" or m.startswith("dask_array.tests."))
+    env = case.get("env") or {}
+    assert isinstance(env, dict) and all(k in ENVS and v == ENVS[k] for k, v in env.items())
     reg = case.get("register_at")
     assert reg is None or (isinstance(reg, int) and not isinstance(reg, bool) and 0 <= reg <= len(order))
     # an order without any dask_array module only makes sense when register() is exercised
@@ -449,7 +456,7 @@ def run_case(case):
         if any('"editable": true' in (d.get("direct_url") or "") or '"editable":true' in (d.get("direct_url") or "") for d in out["dists"]):
             labs.append("static:editable-install")
         return fails, labs, None
-    job = {"job": "order", "order": case["order"], "register_at": case.get("register_at"), "observe": case.get("observe", "active"), "program": case.get("program")}
+    job = {"job": "order", "order": case["order"], "register_at": case.get("register_at"), "observe": case.get("observe", "active"), "program": case.get("program"), "env": case.get("env") or {}}
     out = run_driver(job)
     return evaluate(case, out)
 
@@ -475,6 +482,10 @@ def structure_labels(case):
         labs.append("never-registered")
     if "dask_array._xarray" in order:
         labs.append("imports-dask_array._xarray")
+    if case.get("env"):
+        labs.append("env:query-planning")
+    if "dask.array" in order:
+        labs.append("imports-dask.array")
     nontrivial = (0 < x < n - 1) or (reg is not None and 0 < reg < n)
     return labs, nontrivial
 
@@ -562,7 +573,16 @@ def perm_strategy(mods, lazy, lo=5, hi=40):
         order = chosen[:pos] + ["xarray"] + chosen[pos:]
         reg = d.int(0, len(order)) if d.chance(1, 2) else None
         observe = d.choice(["active", "passive"])
-        return {"order": order, "register_at": reg, "observe": observe, "program": None}
+        case = {"order": order, "register_at": reg, "observe": observe, "program": None}
+        if d.chance(1, 3):
+            # query planning on, dask.array imported somewhere along the way, usually never registered
+            case["env"] = dict(ENVS)
+            order.insert(d.int(0, len(order)), "dask.array")
+            if d.chance(2, 3) and "dask_array._xarray" not in order:
+                order.insert(d.int(0, len(order)), "dask_array._xarray")
+            if d.chance(2, 3):
+                case["register_at"] = None
+        return case
 
     return build()
 
